@@ -283,13 +283,22 @@ class FileSystem(object):
         base_path = os.path.abspath(_convert(self.base_path))
         out_path = os.path.join(base_path, path)
         assert out_path.startswith(base_path + path_sep)
-        if os.path.islink(out_path):
-            link_target = os.readlink(out_path)
+        # A link can be met anywhere in the path: the host must not follow it
+        names = [name for name in path.split(path_sep) if name]
+        for index, name in enumerate(names):
+            cur_path = os.path.join(base_path, *names[:index + 1])
+            if not os.path.islink(cur_path):
+                continue
+            if index == len(names) - 1 and not follow_link:
+                # The path of the link itself, in the sandbox
+                break
+            link_target = os.readlink(cur_path)
             # Link can be absolute or relative -> absolute
-            link = os.path.normpath(os.path.join(os.path.dirname(path), link_target))
-            if follow_link:
-                out_path = self.resolve_path(link)
-            # else: the path of the link itself, in the sandbox
+            link = os.path.join(
+                path_sep, path_sep.join(names[:index]), link_target,
+                *names[index + 1:]
+            )
+            return self.resolve_path(link, follow_link=follow_link)
         return out_path
 
     def get_path_inode(self, real_path):
